@@ -74,6 +74,7 @@ def run(ck: Check, repo: Repo) -> None:
         inner = tz_atom.sub[0]
         ck.ob("C18.1", fn, n, "role:reward" in tb.origins(inner) and "attr:self.support" in tb.origins(inner), "what is clamped is reward + discounted support")
 
+    reg = extract(repo, RB, "RainbowDQN")
     # ---- C18.2 neighbour weights
     adds = [c for c in calls_in(fn.node) if last_attr(c) == "index_add_"]
     ck.ob("C18.2", fn, fn.node, len(adds) == 2, "mass is written by exactly two index_add_ calls (lower and upper atom)", construct="index_add_ calls")
@@ -115,7 +116,10 @@ def run(ck: Check, repo: Repo) -> None:
     # projection buffer shape
     z = [n for n in cfg.live_nodes() if n.kind == "stmt" and isinstance(n.ast, ast.Assign) and isinstance(n.ast.value, ast.Call) and call_name(n.ast.value) in ("torch.zeros", "torch.zeros_like")
          and adds and dotted(n.ast.targets[0]) == dotted(adds[0].func.value.func.value)]
-    ok = bool(z) and ("target_q_dist" in ast.unparse(z[0].ast.value))
+    # "the source distribution" by role: a local whose definition reaching the zeros(...) statement is the shared network's
+    # distribution call or the row selection out of it (sel below), whatever it is called
+    ok = bool(z) and any(isinstance(x, ast.Name) and any(_is_source_def(cfg, d, reg.shared_attrs()) for d in cfg.defs_reaching(z[0], x.id))
+                         for x in ast.walk(z[0].ast.value))
     ck.ob("C18.4", fn, z[0].ast if z else fn.node, ok, "the projection starts from zeros shaped like the source distribution")
 
     # ---- C18.3 fix-up
@@ -150,7 +154,6 @@ def run(ck: Check, repo: Repo) -> None:
           construct="index bound before index_add_")
 
     # ---- C18.5
-    reg = extract(repo, RB, "RainbowDQN")
     shared = reg.shared_attrs()
     evals = reg.eval_attrs()
     src_calls = [c for c in calls_in(fn.node) if dotted(c.func).startswith("self.") and dotted(c.func)[5:] in shared]
@@ -194,6 +197,18 @@ def run(ck: Check, repo: Repo) -> None:
           and "next_obs" not in tb.roles(tb.term(lp[0].args[0], cfg.node_of(lp[0]))),
           "log-probabilities come from the eval network on the current observation")
     _learn(ck, repo)
+
+
+def _is_source_def(cfg: CFG, d: Node, shared: List[str], _depth: int = 0) -> bool:
+    """d binds the distribution of a shared (target) network: `x = self.<shared>(...)`, or `x = y[..., ...]` with y bound that way."""
+    if d.kind != "stmt" or not isinstance(d.ast, ast.Assign):
+        return False
+    v = d.ast.value
+    if isinstance(v, ast.Call):
+        return dotted(v.func).startswith("self.") and dotted(v.func)[5:] in shared
+    if isinstance(v, ast.Subscript) and isinstance(v.value, ast.Name):
+        return _depth < 4 and any(x is not d and _is_source_def(cfg, x, shared, _depth + 1) for x in cfg.defs_reaching(d, v.value.id))
+    return False
 
 
 def _strip_index_clamp(tb: TermBuilder, B: Poly) -> Poly:
@@ -258,6 +273,8 @@ def _learn(ck: Check, repo: Repo) -> None:
     tb = TermBuilder(repo, fn, cfg=cfg, depth=0)
     calls = [c for c in calls_in(fn.node) if call_name(c) == "self._dqn_loss"]
     ck.floor("C18.5", len(calls), 4, "_dqn_loss calls in learn (1-step / n-step x PER / non-PER)", fn=fn)
+    one_names: Set[str] = set()  # locals that receive the 1-step element-wise loss
+    n_names: Set[str] = set()  # locals that receive the n-step element-wise loss
     for c in calls:
         n = cfg.node_of(c)
         g = tb.term(c.args[5], n) if len(c.args) > 5 else None
@@ -267,11 +284,16 @@ def _learn(ck: Check, repo: Repo) -> None:
                 if at.kind == "param":
                     roots.add(at.name)
         nstep = "n_experiences" in roots
+        if n is not None and n.kind == "stmt" and isinstance(n.ast, ast.Assign) and n.ast.value is c and isinstance(n.ast.targets[0], ast.Name):
+            (n_names if nstep else one_names).add(n.ast.targets[0].id)
         want = tb.term(_expr("self.gamma ** self.n_step"), n) if nstep else tb.term(_expr("self.gamma"), n)
         ck.ob("C18.5", fn, c, g is not None and g == want, f"the {'n-step' if nstep else '1-step'} loss discounts with {'gamma ** n_step' if nstep else 'gamma'}",
               detail=f"discount = {g.key()[:80] if g is not None else None}; batch = {sorted(roots)}")
-    pr = [n for n in cfg.live_nodes() if n.kind == "stmt" and isinstance(n.ast, ast.Assign) and dotted(n.ast.targets[0]) == "new_priorities"]
-    pr = [n for n in pr if not (isinstance(n.ast.value, ast.Constant) and n.ast.value.value is None)]
+    # roles from the return statement `return <loss>.item(), <indices>, <new priorities>`: the locals are named by their position
+    rets = [n for n in cfg.live_nodes() if n.kind == "stmt" and isinstance(n.ast, ast.Return) and isinstance(n.ast.value, ast.Tuple)]
+    prio_names = {r.ast.value.elts[2].id for r in rets if len(r.ast.value.elts) == 3 and isinstance(r.ast.value.elts[2], ast.Name)}
+    pr = [n for n in cfg.live_nodes() if n.kind == "stmt" and isinstance(n.ast, ast.Assign) and dotted(n.ast.targets[0]) in prio_names]
+    pr = [n for n in pr if not _is_none(n.ast.value)]
     ok = False
     for n in pr:
         t = tb.term(n.ast.value, n)
@@ -281,16 +303,48 @@ def _learn(ck: Check, repo: Repo) -> None:
         gs = [ast.unparse(g) for g, pol, _ in cfg.guards_at(n) if pol]
         ok = ok and "per" in gs
     ck.ob("C18.5", fn, pr[0].ast if pr else fn.node, ok, "under PER the new priorities are the element-wise loss plus prior_eps")
-    rets = [n for n in cfg.live_nodes() if n.kind == "stmt" and isinstance(n.ast, ast.Return) and isinstance(n.ast.value, ast.Tuple)]
-    ck.ob("C18.5", fn, rets[0].ast if rets else fn.node, bool(rets) and all([dotted(x) for x in r.ast.value.elts][1:] == ["idxs", "new_priorities"] for r in rets),
+    # position 1 is a local that only ever holds experiences["idxs"] or None; position 2 a local that only ever holds None or the priorities above
+    def _ret_ok(r: Node) -> bool:
+        e = r.ast.value.elts
+        if len(e) != 3 or not isinstance(e[1], ast.Name) or dotted(e[1]) == dotted(e[2]):
+            return False
+        d1 = cfg.defs_reaching(r, e[1].id)
+        v1 = [cfg.value_of_def(d, e[1].id) for d in d1]
+        if _is_none(e[2]):
+            # a literal None for the priorities is the same thing on a path where PER is known to be off
+            d2 = [d for d in pr if any(ast.unparse(g) == "per" and not pol for g, pol, _ in cfg.guards_at(r))]
+        elif isinstance(e[2], ast.Name):
+            d2 = cfg.defs_reaching(r, e[2].id)
+        else:
+            return False
+        return bool(d1) and bool(d2) and all(v is not None and (_is_none(v) or _is_key_of(v, "experiences", "idxs")) for v in v1) \
+            and any(v is not None and not _is_none(v) for v in v1) \
+            and all(d in pr or (d.kind == "stmt" and isinstance(d.ast, ast.Assign) and _is_none(d.ast.value)) for d in d2)
+    ck.ob("C18.5", fn, rets[0].ast if rets else fn.node, bool(rets) and all(_ret_ok(r) for r in rets),
           "learn returns (loss, indices, new priorities)")
     # combined reward: both element-wise losses are added
-    adds = [n for n in cfg.live_nodes() if n.kind == "stmt" and isinstance(n.ast, ast.AugAssign) and dotted(n.ast.target) == "elementwise_loss"]
-    ck.ob("C18.5", fn, adds[0].ast if adds else fn.node, len(adds) == 2 and all(isinstance(a.ast.op, ast.Add) and dotted(a.ast.value) == "n_step_elementwise_loss" for a in adds),
+    adds = [n for n in cfg.live_nodes() if n.kind == "stmt" and isinstance(n.ast, ast.AugAssign) and dotted(n.ast.target) in one_names]
+    ck.ob("C18.5", fn, adds[0].ast if adds else fn.node, len(adds) == 2 and all(isinstance(a.ast.op, ast.Add) and dotted(a.ast.value) in n_names for a in adds),
           "with combined targets the 1-step and n-step element-wise losses are summed")
     # PER weights multiply the element-wise loss before the mean
-    lw = [n for n in cfg.live_nodes() if n.kind == "stmt" and isinstance(n.ast, ast.Assign) and dotted(n.ast.targets[0]) == "loss" and "weights" in ast.unparse(n.ast.value)]
-    ck.ob("C18.5", fn, lw[0].ast if lw else fn.node, len(lw) == 1 and ast.unparse(lw[0].ast.value) == "torch.mean(elementwise_loss * weights)", "under PER the loss is the importance-weighted mean")
+    # roles: the loss is what is back-propagated (X.backward() / accelerator.backward(X)); the weights are experiences["weights"]
+    loss_names = {dotted(c.func.value) for c in calls_in(fn.node) if last_attr(c) == "backward" and not c.args and isinstance(c.func.value, ast.Name)} | \
+                 {dotted(c.args[0]) for c in calls_in(fn.node) if call_name(c) == "self.accelerator.backward" and len(c.args) == 1 and isinstance(c.args[0], ast.Name)}
+    w_names = {n.ast.targets[0].id for n in cfg.live_nodes() if n.kind == "stmt" and isinstance(n.ast, ast.Assign) and isinstance(n.ast.targets[0], ast.Name)
+               and _is_key_of(n.ast.value, "experiences", "weights")}
+    lw = [n for n in cfg.live_nodes() if n.kind == "stmt" and isinstance(n.ast, ast.Assign) and dotted(n.ast.targets[0]) in loss_names
+          and any(isinstance(x, ast.Name) and x.id in w_names for x in ast.walk(n.ast.value))]
+    ck.ob("C18.5", fn, lw[0].ast if lw else fn.node, len(lw) == 1 and ast.unparse(lw[0].ast.value) in {f"torch.mean({e} * {w})" for e in one_names for w in w_names},
+          "under PER the loss is the importance-weighted mean")
+
+
+def _is_none(v: ast.AST) -> bool:
+    return isinstance(v, ast.Constant) and v.value is None
+
+
+def _is_key_of(v: ast.AST, param: str, key: str) -> bool:
+    """v is `<param>["<key>"]`."""
+    return isinstance(v, ast.Subscript) and isinstance(v.value, ast.Name) and v.value.id == param and const_value(v.slice) == key
 
 
 _RF = "agilerl/algorithms/dqn_rainbow.py"
@@ -312,6 +366,14 @@ VARIANTS = [
     ("nstep-gamma-plain", _RF, "                n_gamma = self.gamma**self.n_step\n                n_step_elementwise_loss = self._dqn_loss(\n                    n_states, n_actions, n_rewards, n_next_states, n_dones, n_gamma\n                )\n                if self.combined_reward:\n                    elementwise_loss += n_step_elementwise_loss\n                else:\n                    elementwise_loss = n_step_elementwise_loss\n\n            loss = torch.mean(elementwise_loss * weights)",
      "                n_gamma = self.gamma\n                n_step_elementwise_loss = self._dqn_loss(\n                    n_states, n_actions, n_rewards, n_next_states, n_dones, n_gamma\n                )\n                if self.combined_reward:\n                    elementwise_loss += n_step_elementwise_loss\n                else:\n                    elementwise_loss = n_step_elementwise_loss\n\n            loss = torch.mean(elementwise_loss * weights)", "fire", "C18.5"),
     ("priorities-without-eps", _RF, "new_priorities = loss_for_prior + self.prior_eps", "new_priorities = loss_for_prior", "fire", "C18.5"),
+    ("per-weights-dropped", _RF, "loss = torch.mean(elementwise_loss * weights)", "loss = torch.mean(elementwise_loss)", "fire", "C18.5"),
+    ("per-weights-on-nstep-loss-only", _RF, "loss = torch.mean(elementwise_loss * weights)", "loss = torch.mean(n_step_elementwise_loss * weights)", "fire", "C18.5"),
+    ("return-order-swapped", _RF, "return loss.item(), idxs, new_priorities", "return loss.item(), new_priorities, idxs", "fire", "C18.5"),
+    ("combined-adds-one-step-twice", _RF, "                if self.combined_reward:\n                    elementwise_loss += n_step_elementwise_loss\n                else:\n                    elementwise_loss = n_step_elementwise_loss\n\n            loss = torch.mean(elementwise_loss)",
+     "                if self.combined_reward:\n                    elementwise_loss += elementwise_loss\n                else:\n                    elementwise_loss = n_step_elementwise_loss\n\n            loss = torch.mean(elementwise_loss)", "fire", "C18.5"),
+    ("proj-zeros-from-support", _RF, "proj_dist = torch.zeros(target_q_dist.size(), device=self.device)", "proj_dist = torch.zeros(self.support.size(), device=self.device)", "fire", "C18.4"),
+    ("learn-locals-renamed-ok", _RF, "            loss_for_prior = elementwise_loss.detach().cpu().numpy()\n            new_priorities = loss_for_prior + self.prior_eps\n\n        return loss.item(), idxs, new_priorities",
+     "            loss_for_prior = elementwise_loss.detach().cpu().numpy()\n            prios = loss_for_prior + self.prior_eps\n            return loss.item(), idxs, prios\n\n        return loss.item(), idxs, None", "silent", None),
     ("clamp-L-u-ok", _RF, ".clamp(0, self.num_atoms - 1)\n\n            # Find the neighbouring indices of b\n            L = b.floor().long()\n            u = b.ceil().long()\n",
      "\n\n            # Find the neighbouring indices of b\n            L = b.floor().long()\n            u = b.ceil().long()\n            L = L.clamp(0, self.num_atoms - 1)\n            u = u.clamp(0, self.num_atoms - 1)\n", "silent", None),
 ]
